@@ -43,6 +43,7 @@ pub struct Profile {
     pub o_pacing: u32,
     pub o_leaf: u32,
     pub o_convert: u32,
+    pub o_push: u32,
     /// kinds to allocate, with weights
     pub kinds: Vec<(u32, Kind)>,
     pub neg_adjust: bool,
@@ -86,6 +87,7 @@ impl Profile {
             o_pacing: 1,
             o_leaf: 2,
             o_convert: 2,
+            o_push: 0,
             kinds: vec![
                 (30, Kind::D),
                 (20, Kind::R),
@@ -102,6 +104,7 @@ impl Profile {
                 (1, Kind::TStr),
                 (3, Kind::Dyn),
                 (2, Kind::Arr),
+                (3, Kind::P),
                 (5, Kind::Set),
             ],
             neg_adjust: true,
@@ -170,6 +173,7 @@ pub fn op_strategy(p: &Profile, finalize: bool) -> BoxedStrategy<MutOp> {
         (p.o_adjust, debt_value(p.neg_adjust).prop_map(|x| MutOp::AdjustDebt { x }).boxed()),
         (p.o_pacing, any::<u8>().prop_map(|preset| MutOp::SetPacing { preset }).boxed()),
         (p.o_leaf, sel().prop_map(|target| MutOp::PokeLeaf { target }).boxed()),
+        (p.o_push, (0u8..4, proptest::bool::weighted(0.4), prop_oneof![Just(Kind::D), Just(Kind::R), Just(Kind::P), Just(Kind::RB)]).prop_map(|(slot, dual, kind)| MutOp::Push { slot, dual, kind }).boxed()),
         (p.o_convert, (sel(), any::<u8>(), store()).prop_map(|(target, chain, store)| MutOp::Convert { target, chain, store }).boxed()),
     ];
     if finalize {
